@@ -50,7 +50,7 @@ def build(c, motion, rng):
     new_of = {o: k for k, o in enumerate(order)}
     pid = [-1 if P[o] == -1 else new_of[P[o]] for o in order]
     rad = [(1.0 + (o % 3) * 0.5) * s for o in order]
-    t = Tree(n, id=np.arange(n, dtype=np.int32), pid=np.array(pid, dtype=np.int32), type=np.array([1] + [3] * (n - 1), dtype=np.int32),
+    t = Tree(n, source=lib.SRC, id=np.arange(n, dtype=np.int32), pid=np.array(pid, dtype=np.int32), type=np.array([1] + [3] * (n - 1), dtype=np.int32),
              x=xyz[order, 0].astype(np.float32), y=xyz[order, 1].astype(np.float32), z=xyz[order, 2].astype(np.float32),
              r=np.array(rad, dtype=np.float32), tag=np.array(order, dtype=np.int32))
     return t, order, s
